@@ -237,7 +237,7 @@ Qed.
 
 (* fill_window(input) with input.len() = n < 2^31: returns exactly what it copied; a window move
    (if any) keeps keep_size_before bytes of history *)
-Lemma fill_window_spec p d n tr : wf_p p -> lzinv p d -> finishing d = false -> 0 <= n <= I32_MAX ->
+Lemma fill_window_spec p d n tr : wf_p p -> lzinv p d -> finishing d = false -> 0 <= n ->
   okor (fill_window p d n tr) (fun r =>
     let '(d1, used, tr1) := r in
     exists off,
@@ -282,11 +282,9 @@ Proof.
   rewrite ck_i32_ok by (unfold I32_MIN, I32_MAX in *; lia). cbn [obind].
   set (room := buf_size p - (write_pos d - off)).
   assert (Hroom : 0 <= room) by (unfold room; lia).
-  set (len := if room <? n then room mod 18446744073709551616 else n).
+  set (len := Z.min n (room mod 18446744073709551616)).
   assert (Hlen : len = Z.min n room).
-  { unfold len. destruct (Z.ltb_spec room n).
-    - rewrite Z.mod_small by (unfold I32_MAX in *; lia). lia.
-    - lia. }
+  { unfold len. rewrite Z.mod_small by (unfold I32_MAX, room in *; lia). reflexivity. }
   rewrite (Z.mod_small (write_pos d - off)) by (unfold I32_MAX in *; lia).
   destruct (Z.ltb_spec (buf_size p) (write_pos d - off + len)); [unfold room in *; lia|].
   destruct (Z.ltb_spec n len); [lia|]. cbn [orb].
@@ -940,7 +938,7 @@ Section Oracle.
   Definition after_fill (e : encd) (d1 : lzd) : encd :=
     mkEncd d1 (read_ahead e) (unc_size e) (rc_full e) (g_base e + (read_pos (e_lz e) - read_pos d1)).
 
-  Lemma fill_step p org e tr n : wf_p p -> einv p org e tr -> phi p e -> 0 <= n <= I32_MAX ->
+  Lemma fill_step p org e tr n : wf_p p -> einv p org e tr -> phi p e -> 0 <= n ->
     okor (fill_window p (e_lz e) n tr) (fun r =>
       let '(d1, used, tr1) := r in
       let e1 := after_fill e d1 in
@@ -1029,7 +1027,7 @@ Section Oracle.
     einv p org e tr /\ phi p e /\ quiet e /\ sum_abs tr = 0.
 
   Lemma l1_write_loop_spec p org : wf_p p -> forall fuel ps e len off tr,
-    l1inv p org e tr -> 0 <= len <= I32_MAX ->
+    l1inv p org e tr -> 0 <= len ->
     unc_size e + (write_pos (e_lz e) - pidx e) + len <= U32_MAX ->
     len + 1 <= Z.of_nat fuel ->
     okor (l1_write_loop PS parse fuel p ps e len off tr) (fun r =>
@@ -1099,7 +1097,7 @@ Section Oracle.
     rewrite logical_pidx in *. lia.
   Qed.
 
-  Lemma l1_write_spec p org s n : wf_p p -> l1ok s p org -> 0 <= n <= I32_MAX ->
+  Lemma l1_write_spec p org s n : wf_p p -> l1ok s p org -> 0 <= n ->
     sum_fill (l1_tr _ s) - org + n <= U32_MAX ->
     okor (l1_write PS parse s n) (fun r =>
       let '(s1, res) := r in
@@ -1310,9 +1308,9 @@ Section Oracle.
 
   Fixpoint ops_total (ops : list wop) : Z :=
     match ops with [] => 0 | OpWrite n :: r => n + ops_total r | _ :: r => ops_total r end.
-  (* every slice handed to write() is shorter than 2 GiB *)
+  (* slice lengths are lengths *)
   Fixpoint ops_ok (ops : list wop) : Prop :=
-    match ops with [] => True | OpWrite n :: r => 0 <= n <= I32_MAX /\ ops_ok r | _ :: r => ops_ok r end.
+    match ops with [] => True | OpWrite n :: r => 0 <= n /\ ops_ok r | _ :: r => ops_ok r end.
 
   Lemma ops_total_nonneg ops : ops_ok ops -> 0 <= ops_total ops.
   Proof. induction ops as [|[n| |] r IH]; cbn; intros H; try lia; try (apply IH; exact H). destruct H. specialize (IH H0). lia. Qed.
@@ -1980,7 +1978,7 @@ Section Oracle.
   Proof. unfold quiet, qflag. intros H. destruct (Z.leb_spec (read_limit (e_lz e)) (pidx e - 1)); lia. Qed.
 
   Lemma l2_write_loop_spec p : wf_p p -> l2_hist_ok p -> forall fuel s org len off,
-    l2ok p org s -> 0 <= len <= I32_MAX ->
+    l2ok p org s -> 0 <= len ->
     sum_fill (l2_tr _ s) + len <= 4611686018427387904 ->
     wmeasure (l2_e _ s) len + 1 <= Z.of_nat fuel ->
     okor (l2_write_loop PS parse chunkc fuel s len off) (fun r =>
@@ -2035,6 +2033,8 @@ Section Oracle.
       pose proof (l2_pending_cap p org0 s0 L0) as Hpc. fold e0 in Hpc.
       pose proof (ei_lz _ _ _ _ I1) as [[Ha1 Hb1] Hc1 [Hd1 He1] [Hf1 Hg1] Hpb1]. pose proof (ei_ra _ _ _ _ I1) as [Hr11 Hr12].
       pose proof (ei_unc _ _ _ _ I) as Hu0.
+      pose proof (ei_lz _ _ _ _ I) as [[Ha0 Hb0] Hc0 _ _ _]. pose proof (ei_ra _ _ _ _ I) as [Hr01 Hr02].
+      assert (Hused : used <= buf_size p) by (unfold pidx in *; lia).
       rewrite as_u32_id by (unfold U32_MAX, I32_MAX in *; lia).
       rewrite ck_u32_ok by (unfold U32_MAX, I32_MAX, UNC_BOUND, SYM_MAX, LZMA2_UNCOMPRESSED_LIMIT, pidx in *; lia). cbn [obind].
       assert (Hub1 : unc_size e1 <= UNC_BOUND p) by (rewrite Un1; exact J2).
@@ -2138,7 +2138,7 @@ Section Oracle.
   Qed.
 
 
-  Lemma l2_write_spec p org s n : wf_p p -> l2_hist_ok p -> l2ok p org s -> 0 <= n <= I32_MAX ->
+  Lemma l2_write_spec p org s n : wf_p p -> l2_hist_ok p -> l2ok p org s -> 0 <= n ->
     sum_fill (l2_tr _ s) + n <= 4611686018427387904 ->
     okor (l2_write PS parse chunkc s n) (fun r =>
       exists org1, l2ok p org1 (fst r) /\ snd r = RWrote n /\ l2_chunk _ (fst r) = l2_chunk _ s /\
@@ -2611,3 +2611,12 @@ Proof.
   intros Hf. subst fin. pose proof (l1_results_finished _ _ _ _ _ E) as Hc. cbn in Hc.
   destruct (R3 eq_refl) as [R4 _]. split; [symmetry; exact Hc|]. rewrite R4. exact Hc.
 Qed.
+
+(* ---------------------------------------------------------------------------------------------
+   fill_window before the repair "write() of a slice of 2 GiB or more panics in fill_window":
+   for a slice of 2^31 bytes the number of bytes to copy came out as the whole slice length,
+   whatever the room left in the window (655906 = buf_size of preset 0's window): the slice
+   buf[write_pos .. write_pos + len] is then out of range. *)
+Lemma fill_window_huge_slice_old_refuted :
+  fill_len_old 655906 2147483648 = 2147483648 /\ 655906 < fill_len_old 655906 2147483648.
+Proof. vm_compute. split; reflexivity. Qed.
